@@ -1,3 +1,55 @@
+/-
+  C18c — either_or: the WHOLE idiom, any number n ≥ 2 of options, arbitrary blackboard-free option subtrees, one whole
+  tick and whole histories:
+  "either_or ticks exactly the subtree whose condition holds when exactly one condition holds, fails when none or
+  several hold, and does not switch subtree while the chosen one is RUNNING".
+
+  What the code does (and what is proved): the check folds XOR over the verdicts, so it passes iff the NUMBER of true
+  conditions is ODD (KNOWN FINDING K3, `C18_xor_parity` / `C18_eo_several_odd_passes` in C18.lean), and the memoryless
+  chooser then picks the FIRST option whose flag is set.  The theorems state the model's behaviour (parity) and derive
+  the property-shaped corollaries for "exactly one", "none", "an even number"; "fails when several hold" is FALSE for
+  3, 5, … (kernel-checked on the three-option instance at the end of this file).
+
+  An instance is described structurally, in ANY runtime state (ids, statuses, remembered children arbitrary):
+    `Opt` (flag, ids of the option Sequence and of its guard leaf, subtree), `optNode`, `IsOpt`,
+    `IsEitherOr conds opts rid xid sid n`: memory Sequence `rid` [XOR leaf `xid` publishing the flags, memoryless
+    Selector `sid` over the option nodes]; both are properties of the skeleton (`isOpt_iff_skel`, `isEitherOr_iff_skel`),
+    hence kept by ticks, interrupts and pokes.
+    `EitherOrOK`: blackboard-free subtrees (`C18b.noBB`), pairwise distinct flags, one condition per option, ≥ 2 options,
+    pairwise distinct ids, and the conditions do not read the flags.
+    `C18b.flagOn w k`: the guard passes (`True`, or the integer 1 that `Val.beq`, as Python, identifies with `True`; the
+    XOR leaf only ever writes booleans).
+    `EOInv opts n` (state invariant, no blackboard involved): every option that is RUNNING remembers its subtree; a root
+    that is not RUNNING has no RUNNING option; a RUNNING root remembers the chooser, the chooser is RUNNING and remembers
+    an option `oj` (`chosenId`), `oj` is RUNNING and no other option is.
+    `TaskTick e w tr st t0`: the subtree `t0` was ticked (store `w`, untouched), its trace is part of `tr`, it returned `st`.
+
+  Theorems (all top level):
+   1. `C18_eo_tick_fresh`: a tick of an idiom that is not RUNNING, all condition variables present
+      (`evalChecks w conds = some rs`): flag `i` := `rs[i]`, nothing else written; (a) EVEN count ⇒ FAILURE, only root and
+      XOR leaf entered; (b) ODD count ⇒ every entered subtree has its flag `True`, options are tried in order, a later
+      subtree only after every earlier flagged one returned FAILURE, the root returns what the last tried subtree returned.
+      Corollaries `C18_eo_exactly_one` (exactly subtree `j` ticked, status mirrored), `C18_eo_none_or_two`,
+      `C18_eo_first_true` (general odd case: the FIRST true condition's subtree is entered, no earlier one),
+      `C18_eo_tick_missing` (a condition variable missing ⇒ FAILURE, nothing written, no subtree),
+      `C18_eo_truth_stable` (publishing the flags does not change the conditions' verdict).
+   2. `C18_eo_tick_running`: a tick of a RUNNING idiom, NO hypothesis on the blackboard: the XOR leaf is not re-entered,
+      the store is untouched, the guard of the chosen option `oj` is not re-entered; the memoryless chooser re-ticks the
+      guards of the other options it reaches, which read the FLAGS; a subtree is entered only if it is `oj`'s or its flag
+      is set; when no other flag is set, ONLY `oj`'s subtree is ticked, mirrored, and the idiom stays at `oj`.
+   3. `C18_eo_inv_fresh`, `C18_eo_inv_step`, `C18_eo_inv_run` (the invariant over ticks / interrupts / pokes of ANY
+      variable), `C18_eo_history` (after any history the next tick is as in 1 or 2), and — with the ghost invariant
+      `Sole` (while RUNNING at `oj` no other flag is set) and `Exclusive` conditions (never an odd number ≥ 3 at a time;
+      automatic for two options: `C18c.exclusive_of_two`) — `C18_eo_sole_tick/_step/_run` and
+      `C18_eo_history_exclusive`: after any history that does not poke the flags (condition variables may be poked at
+      will), a RUNNING idiom re-ticks only the chosen subtree and does not switch.
+      For non-`Exclusive` conditions (K3: three flags set) the RUNNING idiom CAN switch back to an earlier flagged option
+      whose subtree had failed: kernel-checked example at the end; this is why 2 carries the "no other flag" hypothesis.
+   4. `C18_eo_isEitherOr`: for ALL condition / subtree lists of equal length, `Idioms.renumber (Idioms.eitherOr …)` is an
+      instance over the explicit options `C18c.optsOf 4 (keys zip subtrees)` and satisfies `EOInv` and `Sole`.
+  1 needs `EOInv` (counterexample on an unreachable state at the end).  Not proved here: that `Idioms.renumber` yields
+  pairwise distinct ids for every subtree list (part of `EitherOrOK`; checked by `decide` on the concrete instances).
+-/
 import PyTreesProofs.Props.C18b
 set_option linter.unusedVariables false
 set_option linter.unusedSimpArgs false
@@ -2139,3 +2191,269 @@ theorem C18_eo_isEitherOr (conds : List Check) (subtrees : List Node) (ns : Stri
     · simp only [Node.children, List.mem_map] at hc
       obtain ⟨o, _, rfl⟩ := hc
       exact ⟨rfl, by simp [C18c.freshOpt, C18c.optNode, Node.status]⟩
+
+/-- **1b, "the first condition that holds wins"** (general odd case, K3 included): when an odd number of conditions hold
+    and `j` is the index of the FIRST one, the subtree of option `j` is entered and no subtree of an earlier option is.
+    (Later flagged options can be entered too, but only after option `j`'s subtree returned FAILURE:
+    `C18_eo_tick_fresh` (b).) -/
+theorem C18_eo_first_true (conds : List Check) (opts : List C18c.Opt) (rid xid sid : Nat) (n : Node)
+    (hp : C18c.IsEitherOr conds opts rid xid sid n) (hok : C18c.EitherOrOK conds opts rid xid sid)
+    (hinv : C18c.EOInv opts n) (hst : n.status ≠ .running) (f : Nat) (e : Env) (w : Store) (rs : List Bool)
+    (hev : evalChecks w conds = .ok (some rs)) (hodd : (rs.filter id).length % 2 = 1)
+    (j : Nat) (hj : j < opts.length) (hjr : j < rs.length) (hjt : rs[j] = true)
+    (hfirst : ∀ i (hi : i < rs.length), i < j → rs[i] = false)
+    (n' : Node) (w' : Store) (tr : List Ev) (h : tickF f e w n = .ok (n', w', tr)) :
+    Ev.enter opts[j].task.id ∈ tr ∧ ∀ i (hi : i < opts.length), i < j → Ev.enter opts[i].task.id ∉ tr := by
+  obtain ⟨_, _, hlen, _, hfl, _, _, hb⟩ :=
+    C18_eo_tick_fresh conds opts rid xid sid n hp hok hinv hst f e w rs hev n' w' tr h
+  obtain ⟨hA, o1, o2, hos, hB, hC⟩ := hb hodd
+  have hjf : w' opts[j].flag = some (.bool true) := by rw [hfl j hj hjr, hjt]
+  constructor
+  · have hent : ∀ st t0, skel t0 = skel opts[j].task → C18c.TaskTick e w' tr st t0 → Ev.enter opts[j].task.id ∈ tr := by
+      intro st t0 ht0 hTT
+      have := hTT.enter
+      rwa [id_of_skel ht0] at this
+    by_cases hlt : j < o1.length
+    · have hmem : opts[j] ∈ o1 := by
+        have : opts[j] = o1[j] := by
+          subst hos; exact List.getElem_append_left hlt
+        rw [this]; exact List.getElem_mem hlt
+      obtain ⟨st, t0, _, _, g3, g4⟩ := (hB _ hmem).2 hjf
+      exact hent st t0 g3 g4
+    · rcases hC with ⟨_, ho2⟩ | ⟨o, b, ho2, _, _, hfo, _, ⟨t0, ht0, hTT⟩, _⟩
+      · exfalso
+        subst hos; subst ho2
+        simp only [List.append_nil] at hj
+        exact hlt hj
+      · have hi : o1.length < opts.length := by rw [hos, ho2]; simp
+        have hoi : opts[o1.length] = o := by
+          subst hos; subst ho2; simp
+        by_cases heq : j = o1.length
+        · subst heq
+          rw [hoi]
+          have := hTT.enter
+          rwa [id_of_skel ht0] at this
+        · exfalso
+          have hlt' : o1.length < j := by omega
+          have hir : o1.length < rs.length := by omega
+          have h1 := hfl o1.length hi hir
+          rw [hoi, hfo, hfirst o1.length hir hlt'] at h1
+          simp at h1
+  · intro i hi hij hin
+    have h1 := hA _ (List.getElem_mem hi) hin
+    have hir : i < rs.length := by omega
+    rw [hfl i hi hir, hfirst i hir hij] at h1
+    simp at h1
+
+/-- the conditions do not read the flags, so after the XOR leaf has published them the conditions still evaluate as
+    they did: the verdict the idiom acted on is the verdict of the blackboard it leaves behind -/
+theorem C18_eo_truth_stable (conds : List Check) (opts : List C18c.Opt) (rid xid sid : Nat) (n : Node)
+    (hp : C18c.IsEitherOr conds opts rid xid sid n) (hok : C18c.EitherOrOK conds opts rid xid sid)
+    (hinv : C18c.EOInv opts n) (hst : n.status ≠ .running) (f : Nat) (e : Env) (w : Store) (rs : List Bool)
+    (hev : evalChecks w conds = .ok (some rs)) (n' : Node) (w' : Store) (tr : List Ev)
+    (h : tickF f e w n = .ok (n', w', tr)) : evalChecks w' conds = .ok (some rs) := by
+  obtain ⟨_, _, _, _, _, hoth, _⟩ :=
+    C18_eo_tick_fresh conds opts rid xid sid n hp hok hinv hst f e w rs hev n' w' tr h
+  rw [C18c.evalChecks_congr w w' conds (fun c hc => hoth c.key (hok.2.2.2.2.2 c hc)), hev]
+
+/-! ## 7. non-vacuity: concrete two- and three-option instances -/
+
+namespace C18c
+
+def isTrue (k : String) : Check := { key := k, path := [], op := .eq, value := .bool true }
+def setB (k : String) (b : Bool) : Op := .poke k (some (.bool b))
+def exEnv (f : Nat → Status) : Env := { outcome := f, guard := fun _ => true, now := 0 }
+def eR : Env := exEnv (fun _ => .running)
+def eS : Env := exEnv (fun _ => .success)
+def eF : Env := exEnv (fun _ => .failure)
+
+/-- a Sequence subtree: a counter (one RUNNING tick, then SUCCESS) followed by a probe -/
+def seqSub (i : Nat) : Node :=
+  seq i true .invalid none [leaf (i + 1) .invalid (.tickCounter 1 .success 0) [], leaf (i + 2) .invalid .probe []]
+
+/-- two options; ids as `Idioms.renumber` assigns them:
+    1 root; 2 XOR; 3 chooser [4 [5 guard, 6 probe], 7 [8 guard, 9 Sequence [10 counter, 11 probe]]] -/
+def ex2Opts : List Opt :=
+  [{ flag := "/eo/1", oid := 4, gid := 5, task := leaf 6 .invalid .probe [] },
+   { flag := "/eo/2", oid := 7, gid := 8, task := seqSub 9 }]
+def ex2Conds : List Check := [isTrue "/a", isTrue "/b"]
+def ex2Tree : Node :=
+  seq 1 true .invalid none
+    [leaf 2 .invalid (.checkValues ex2Conds .xor (some (ex2Opts.map Opt.flag))) [],
+     sel 3 false .invalid none (ex2Opts.map freshOpt)]
+
+/-- three options: 1 root; 2 XOR; 3 chooser [4 [5, 6 probe], 7 [8, 9 Sequence [10, 11]], 12 [13, 14 probe]] -/
+def ex3Opts : List Opt :=
+  ex2Opts ++ [{ flag := "/eo/3", oid := 12, gid := 13, task := leaf 14 .invalid .probe [] }]
+def ex3Conds : List Check := [isTrue "/a", isTrue "/b", isTrue "/c"]
+def ex3Tree : Node :=
+  seq 1 true .invalid none
+    [leaf 2 .invalid (.checkValues ex3Conds .xor (some (ex3Opts.map Opt.flag))) [],
+     sel 3 false .invalid none (ex3Opts.map freshOpt)]
+
+theorem ex2_isEitherOr : IsEitherOr ex2Conds ex2Opts 1 2 3 ex2Tree :=
+  ⟨.invalid, none, .invalid, [], .invalid, none, _, rfl, C18b.allRel_map _ _ (fun o => ⟨_, _, _, _, _, rfl, rfl⟩) _⟩
+theorem ex3_isEitherOr : IsEitherOr ex3Conds ex3Opts 1 2 3 ex3Tree :=
+  ⟨.invalid, none, .invalid, [], .invalid, none, _, rfl, C18b.allRel_map _ _ (fun o => ⟨_, _, _, _, _, rfl, rfl⟩) _⟩
+
+/-- what the examples look at: root status after the history, then for one more tick: root status, whether the XOR
+    leaf (2) / subtree 1 (6) / subtree 2 (9) / subtree 3 (14) were entered, the guards entered -/
+def probeTick (ops : List Op) (e : Env) (t : Node) : Option (Status × Status × List Nat) :=
+  match run ops t Store.empty with
+  | .ok (n1, w1) =>
+    (match tick e w1 n1 with
+     | .ok (n2, _, tr) =>
+        some (n1.status, n2.status, tr.filterMap (fun ev => match ev with | .enter i => some i | _ => none))
+     | .error _ => none)
+  | .error _ => none
+
+def truth (w : Store) (conds : List Check) : Option (List Bool) :=
+  match evalChecks w conds with | .ok (some rs) => some rs | _ => none
+
+end C18c
+open C18c
+
+example : (eoSkel ex2Conds ex2Opts 1 2 3).ids = [1, 2, 3, 4, 5, 6, 7, 8, 9, 10, 11] := by decide
+theorem C18c.ex2_ok : EitherOrOK ex2Conds ex2Opts 1 2 3 :=
+  ⟨by decide, by decide, by decide, by decide, by decide, by decide⟩
+theorem C18c.ex3_ok : EitherOrOK ex3Conds ex3Opts 1 2 3 :=
+  ⟨by decide, by decide, by decide, by decide, by decide, by decide⟩
+theorem C18c.ex2_inv : EOInv ex2Opts ex2Tree :=
+  C18_eo_inv_fresh ex2Conds ex2Opts 1 2 3 ex2Tree ex2_isEitherOr (by decide) (by decide)
+theorem C18c.ex3_inv : EOInv ex3Opts ex3Tree :=
+  C18_eo_inv_fresh ex3Conds ex3Opts 1 2 3 ex3Tree ex3_isEitherOr (by decide) (by decide)
+/-- two conditions are always `Exclusive` -/
+example : Exclusive ex2Conds := exclusive_of_two _ rfl
+
+/-- every state reached from the fresh two-option idiom is an instance satisfying the invariants, whatever the history
+    (pokes of the condition variables included) -/
+example (ops : List Op) (hops : ∀ op ∈ ops, OpOK ex2Opts op) (n1 : Node) (w1 : Store)
+    (h : run ops ex2Tree Store.empty = .ok (n1, w1)) :
+    IsEitherOr ex2Conds ex2Opts 1 2 3 n1 ∧ EOInv ex2Opts n1 ∧ Sole ex2Opts w1 n1 :=
+  (C18_eo_history_exclusive ex2Conds ex2Opts 1 2 3 ex2_ok (exclusive_of_two _ rfl) ops ex2Tree Store.empty
+    ex2_isEitherOr ex2_inv (C18_eo_sole_fresh _ _ _ (by decide)) hops n1 w1 h).1 |> fun h1 =>
+  ⟨h1, (C18_eo_history_exclusive ex2Conds ex2Opts 1 2 3 ex2_ok (exclusive_of_two _ rfl) ops ex2Tree Store.empty
+    ex2_isEitherOr ex2_inv (C18_eo_sole_fresh _ _ _ (by decide)) hops n1 w1 h).2.1,
+   (C18_eo_history_exclusive ex2Conds ex2Opts 1 2 3 ex2_ok (exclusive_of_two _ rfl) ops ex2Tree Store.empty
+    ex2_isEitherOr ex2_inv (C18_eo_sole_fresh _ _ _ (by decide)) hops n1 w1 h).2.2.1⟩
+
+-- `OpOK`: pokes of the condition variables are allowed, pokes of the flags are not
+example : OpOK ex2Opts (setB "/a" false) := by simp [OpOK, setB, ex2Opts]
+example : ¬ OpOK ex2Opts (.poke "/eo/1" none) := by simp [OpOK, ex2Opts]
+
+-- the hypothesis `evalChecks w conds = some rs` of 1 on concrete blackboards
+example : truth ((Store.empty.set "/a" (.bool true)).set "/b" (.bool false)) ex2Conds = some [true, false] := by decide
+example : truth (Store.empty.set "/a" (.bool true)) ex2Conds = none := by decide  -- "/b" missing
+
+/-! ### two options -/
+-- exactly condition 2 holds: exactly subtree 2 (the Sequence 9, its counter 10) is ticked, status mirrored (RUNNING)
+example : probeTick [setB "/a" false, setB "/b" true] eR ex2Tree =
+    some (.invalid, .running, [1, 2, 3, 4, 5, 7, 8, 9, 10]) := by decide
+-- none / both: FAILURE, only the root and the XOR leaf are entered
+example : probeTick [setB "/a" false, setB "/b" false] eR ex2Tree = some (.invalid, .failure, [1, 2]) := by decide
+example : probeTick [setB "/a" true, setB "/b" true] eR ex2Tree = some (.invalid, .failure, [1, 2]) := by decide
+-- a missing condition variable: FAILURE, no subtree
+example : probeTick [setB "/a" true] eR ex2Tree = some (.invalid, .failure, [1, 2]) := by decide
+/-- **the condition variable is flipped by a poke while the chosen subtree is RUNNING**: condition 2 held, subtree 2 is
+    RUNNING; then `/a := True, /b := False` — now condition 1 holds and condition 2 does not; the next tick does NOT
+    re-evaluate the XOR leaf (2), re-enters the guard of option 1 (5: it reads the FLAG, still False), does not re-enter
+    the guard of option 2 (8) and ticks the SAME subtree (9; its counter has finished, so now its probe 11) -/
+example : probeTick [setB "/a" false, setB "/b" true, .tick eR, setB "/a" true, setB "/b" false] eR ex2Tree =
+    some (.running, .running, [1, 3, 4, 5, 7, 9, 10, 11]) := by decide
+-- the conditions at that moment really are the other way round
+example : (match run [setB "/a" false, setB "/b" true, .tick eR, setB "/a" true, setB "/b" false] ex2Tree Store.empty with
+    | .ok (_, w1) => truth w1 ex2Conds | .error _ => none) = some [true, false] := by decide
+-- and the flags still carry the verdict of the last evaluation
+example : (match run [setB "/a" false, setB "/b" true, .tick eR, setB "/a" true, setB "/b" false] ex2Tree Store.empty with
+    | .ok (_, w1) => some (w1 "/eo/1" == some (.bool false), w1 "/eo/2" == some (.bool true)) | .error _ => none) =
+    some (true, true) := by decide
+-- once the chosen subtree has completed, the next entry re-evaluates the conditions and runs subtree 1 (6)
+example : probeTick [setB "/a" false, setB "/b" true, .tick eR, setB "/a" true, setB "/b" false, .tick eS] eR ex2Tree =
+    some (.success, .running, [1, 2, 3, 4, 5, 6]) := by decide
+-- an interrupt also ends the commitment
+example : probeTick [setB "/a" false, setB "/b" true, .tick eR, setB "/a" true, setB "/b" false, .stop] eR ex2Tree =
+    some (.invalid, .running, [1, 2, 3, 4, 5, 6]) := by decide
+
+/-! ### three options -/
+-- exactly condition 2 (the Sequence subtree): only that subtree
+example : probeTick [setB "/a" false, setB "/b" true, setB "/c" false] eR ex3Tree =
+    some (.invalid, .running, [1, 2, 3, 4, 5, 7, 8, 9, 10]) := by decide
+-- two of three: FAILURE, no subtree
+example : probeTick [setB "/a" true, setB "/b" false, setB "/c" true] eR ex3Tree = some (.invalid, .failure, [1, 2]) := by
+  decide
+/-- **K3 at the level of the whole idiom**: all three conditions hold, yet the idiom does not fail: the check passes
+    (odd) and the FIRST option's subtree (6) is ticked … -/
+example : probeTick [setB "/a" true, setB "/b" true, setB "/c" true] eR ex3Tree =
+    some (.invalid, .running, [1, 2, 3, 4, 5, 6]) := by decide
+/-- … and when that subtree FAILS the chooser goes on to the next flagged option (9) within the same tick
+    (`C18_eo_tick_fresh` (b): a later subtree only after the earlier flagged ones returned FAILURE) -/
+example : probeTick [setB "/a" true, setB "/b" true, setB "/c" true]
+      (exEnv (fun i => if i = 6 then .failure else .running)) ex3Tree =
+    some (.invalid, .running, [1, 2, 3, 4, 5, 6, 7, 8, 9, 10]) := by decide
+/-- K3, RUNNING case: with three flags set and the idiom RUNNING at option 2 (after option 1's subtree failed), the next
+    tick re-ticks option 1's subtree (6) first — its flag is set — and SWITCHES to it when it now returns RUNNING: this
+    is why `C18_eo_tick_running` states "only `oj`'s subtree" under the hypothesis that no other flag is set, and
+    `C18_eo_history_exclusive` assumes `Exclusive` conditions. -/
+example : probeTick [setB "/a" true, setB "/b" true, setB "/c" true,
+      .tick (exEnv (fun i => if i = 6 then .failure else .running))] eR ex3Tree =
+    some (.running, .running, [1, 3, 4, 5, 6]) := by decide
+/-- the three-condition list of this example is NOT `Exclusive` -/
+example : ¬ Exclusive ex3Conds := by
+  intro h
+  have := h (((Store.empty.set "/a" (.bool true)).set "/b" (.bool true)).set "/c" (.bool true)) [true, true, true]
+    rfl (by decide)
+  simp at this
+
+/-! ### why 1 needs the invariant `EOInv`
+
+  `IsEitherOr` allows ANY runtime state, also states no history can reach; `EOInv` (true initially, kept by every
+  operation: `C18_eo_inv_step`) excludes them. -/
+namespace C18c
+/-- an UNREACHABLE state: nothing is RUNNING except option 2, which claims to be RUNNING at its subtree -/
+def exBad : Node :=
+  seq 1 true .invalid none
+    [leaf 2 .invalid (.checkValues ex2Conds .xor (some (ex2Opts.map Opt.flag))) [],
+     sel 3 false .invalid none
+       [freshOpt { flag := "/eo/1", oid := 4, gid := 5, task := leaf 6 .invalid .probe [] },
+        optNode { flag := "/eo/2", oid := 7, gid := 8, task := seqSub 9 } .running (some 9) .invalid [] (seqSub 9)]]
+end C18c
+example : IsEitherOr ex2Conds ex2Opts 1 2 3 exBad :=
+  ⟨.invalid, none, .invalid, [], .invalid, none, _, rfl, ⟨⟨_, _, _, _, _, rfl, rfl⟩, ⟨_, _, _, _, _, rfl, rfl⟩, trivial⟩⟩
+/-- without the invariant "exactly one ⇒ only that subtree" fails: only condition 1 holds, subtree 1 (6) fails, and the
+    chooser then resumes the stale option 2 at its subtree (9) although flag 2 is False -/
+example : (match tick eF ((Store.empty.set "/a" (.bool true)).set "/b" (.bool false)) exBad with
+    | .ok (_, w', tr) => some (w' "/eo/2" == some (.bool false), tr.contains (.enter 6), tr.contains (.enter 9))
+    | .error _ => none) = some (true, true, true) := by decide
+
+/-! ### the builder instance of 4 -/
+-- the options `optsOf` computes for the two-option idiom of C18 (`C18.eo2`): ids of option / guard / subtree
+example : ((optsOf 4 (["/eo/1", "/eo/2"].zip [C18.probe, C18.probe])).1.map (fun o => (o.oid, o.gid, o.task.id)),
+    (optsOf 4 (["/eo/1", "/eo/2"].zip [C18.probe, C18.probe])).2) = ([(4, 5, 6), (7, 8, 9)], 10) := by decide
+example : IsEitherOr [C18.isTrue "/a", C18.isTrue "/b"]
+    (optsOf 4 ((C18.eoKeys 2 "/eo").zip [C18.probe, C18.probe])).1 1 2 3 C18.eo2 :=
+  (C18_eo_isEitherOr [C18.isTrue "/a", C18.isTrue "/b"] [C18.probe, C18.probe] "/eo" rfl).1
+open C18c
+/-! ### the hypotheses of 1 / 2 on concrete non-trivial states -/
+-- "exactly condition `j` holds" (hypothesis `hone` of `C18_eo_exactly_one`) for the verdict [False, True], j = 1
+example : ∀ i (hi : i < [false, true].length), [false, true][i] = true ↔ i = 1 := by decide
+example : ([false, true].filter id).length = 1 := by decide
+-- a reached RUNNING state (hypothesis of `C18_eo_tick_running`): the chooser remembers option 2 (id 7)
+example : (match run [setB "/a" false, setB "/b" true, .tick eR] ex2Tree Store.empty with
+    | .ok (n1, _) => some (n1.status, chosenId n1) | .error _ => none) = some (.running, some 7) := by decide
+/-- `C18_eo_history_exclusive` applied to that history: whatever the next environment, the next tick does not enter the
+    XOR leaf (2) nor the guard of the chosen option, and leaves the blackboard alone -/
+example (n1 : Node) (w1 : Store)
+    (h : run [setB "/a" false, setB "/b" true, .tick eR, setB "/a" true, setB "/b" false] ex2Tree Store.empty =
+      .ok (n1, w1)) (hr : n1.status = .running) (e : Env) (n2 : Node) (w2 : Store) (tr : List Ev)
+    (ht : tick e w1 n1 = .ok (n2, w2, tr)) :
+    ∃ oj ∈ ex2Opts, chosenId n1 = some oj.oid ∧ w2 = w1 ∧ Ev.enter 2 ∉ tr ∧ Ev.enter oj.gid ∉ tr ∧
+      Ev.enter oj.task.id ∈ tr ∧ (∀ o ∈ ex2Opts, Ev.enter o.task.id ∈ tr → o = oj) := by
+  have hops : ∀ op ∈ [setB "/a" false, setB "/b" true, Op.tick eR, setB "/a" true, setB "/b" false],
+      OpOK ex2Opts op := by
+    intro op hop
+    simp only [List.mem_cons, List.not_mem_nil, or_false] at hop
+    rcases hop with rfl | rfl | rfl | rfl | rfl <;> simp [OpOK, setB, ex2Opts]
+  obtain ⟨_, _, _, hnext⟩ := C18_eo_history_exclusive ex2Conds ex2Opts 1 2 3 ex2_ok (exclusive_of_two _ rfl) _ ex2Tree
+    Store.empty ex2_isEitherOr ex2_inv (C18_eo_sole_fresh _ _ _ (by decide)) hops n1 w1 h
+  obtain ⟨oj, hoj, g1, g2, g3, g4, g5, g6, _⟩ := (hnext e n2 w2 tr ht).2 hr
+  exact ⟨oj, hoj, g1, g2, g3, g4, g5, g6⟩
